@@ -218,6 +218,40 @@ def body_uneven(E, n, nb, f1, f2, f3, base):
                 and crop.is_ready_to_reap() == (len(fin) == B))
 
 
+def body_dump_fails(E, B, i, f1, f2, f3, fresh, base):
+    """the REAL write_to_disk runs (step-level file system): growing batch i fails while the result is being
+    written (it cannot be pickled); whatever the write leaves behind, the batch does not count as finished, and
+    growing it again properly makes the crop ready with exact results"""
+    from ..env import Env
+    from ..stubs.stepfs import Unpicklable
+    from xyzpy.gen.combo_runner import combo_runner
+
+    B = concretize(B, 1, 3)
+    i = concretize(i, 1, B)
+    fn = mkfn(base)
+    with (Env("sym", fs="step") if E is SYM else E()) as env:
+        crop = cp.Crop(fn=fn, name="t", parent_dir=env.parent, batchsize=1)
+        crop.sow_combos(grid(B), verbosity=0)
+        F = [k + 1 for k, f in enumerate([f1, f2, f3][:B]) if cbool(f) and k + 1 != i]
+        for k in F:
+            cp.grow(k, crop=crop, verbosity=0)
+        try:
+            cp.grow(i, crop=crop, fn=lambda **kw: Unpicklable(), verbosity=0)
+            return False
+        except TypeError:
+            pass
+        q = cp.Crop(name="t", parent_dir=env.parent) if cbool(fresh) else crop
+        want_missing = tuple(k for k in range(1, B + 1) if k not in F)
+        if q.num_results != len(F) or q.missing_results() != want_missing or q.is_ready_to_reap():
+            return False
+        if q.check_bad() != () or q.num_results != len(F):
+            return False
+        q.grow_missing()
+        if not (q.is_ready_to_reap() and q.num_results == B == q.num_sown_batches and q.missing_results() == ()):
+            return False
+        return q.reap() == combo_runner(fn, grid(B), verbosity=0)
+
+
 BODIES = {}
 _G = globals()
 _SIG = "B:int per:int f1:bool f2:bool f3:bool f4:bool fresh:bool i:int s1:bool s2:bool s3:bool s4:bool base:int"
@@ -241,6 +275,12 @@ CONDS = (
                  ["3 <= n <= 5 and 2 <= nb <= 3"], timeout=300,
                  bounds="crops of 3-5 settings sown with num_batches 2-3 (uneven batch sizes), every finished subset: "
                         "check_bad on healthy results reports and deletes nothing; progress queries unchanged")]
+    + [make_cond(_G, "dump_fails", body_dump_fails, "B:int i:int f1:bool f2:bool f3:bool fresh:bool base:int",
+                 ["1 <= B <= 3 and 1 <= i <= B"], timeout=300,
+                 bounds="the real write_to_disk on the step-level file system: B<=3 batches, any other batches "
+                        "finished, growing batch i fails inside pickle.dump (unpicklable result): the batch does "
+                        "not count as finished for any query, check_bad reports nothing, growing it again makes "
+                        "the crop ready with exact results")]
     + [make_cond(_G, "history2", body_history, "o1:int a1:int o2:int a2:int base:int",
                  ["0 <= o1 <= 4 and 0 <= o2 <= 4 and 1 <= a1 <= 3 and 1 <= a2 <= 3"], fixed=dict(o3=0, a3=1, steps=2),
                  timeout=300, tiers=("quick",),
